@@ -45,14 +45,44 @@ def transform(path, data):
         text = open_server_handlers(text)
     if path.endswith("/server/src/lib.rs"):
         text = re.sub(r"(?m)^mod (server|dto|errors);", r"pub mod \1;", text)
-    n1 = text.count("std::sync::")
+    # lazily initialised statics that hold a synchronisation primitive become loom's (re-initialised in every execution)
+    n0 = 0
+    pos = 0
+    while True:
+        i = text.find("lazy_static!", pos)
+        if i < 0:
+            break
+        if i >= 6 and text[i - 6:i] == "loom::":
+            pos = i + 12
+            continue
+        j = text.find("{", i)
+        if j < 0:
+            break
+        depth, k = 0, j
+        while k < len(text):
+            if text[k] == "{":
+                depth += 1
+            elif text[k] == "}":
+                depth -= 1
+                if depth == 0:
+                    break
+            k += 1
+        block = text[j:k + 1]
+        if re.search(r"\b(Mutex|RwLock|Condvar|Atomic\w*|RefCell|Cell|OnceLock|Once)\b", block):
+            text = text[:i] + "loom::" + text[i:]
+            n0 += 1
+            pos = k + 7
+        else:
+            pos = k + 1
+    n1 = text.count("std::sync::") + n0
     text = text.replace("std::sync::", "verif_sync::")
     n2 = len(re.findall(r"(?<![:\w])thread_local!", text))
     text = re.sub(r"(?<![:\w])thread_local!", "loom::thread_local!", text)
     return text.encode("utf-8"), n1 + n2
 
 # constructs through which state can be shared between threads without passing a primitive that loom intercepts
-SHARING = [r"\bstatic\s+mut\b", r"\bas\s+\*mut\b", r"unsafe\s+impl\s+(Sync|Send)\b", r"\bUnsafeCell\b", r"static\s+ref\s+\w+\s*:\s*[^=;]*(Cell|Mutex|RwLock|Atomic)"]
+# (lazily initialised statics that hold a synchronisation primitive are intercepted: they become loom::lazy_static)
+SHARING = [r"\bstatic\s+mut\b", r"\bas\s+\*mut\b", r"unsafe\s+impl\s+(Sync|Send)\b", r"\bUnsafeCell\b"]
 
 def sharing_constructs(path, text):
     out = {}
